@@ -198,14 +198,26 @@ func findGoFiles(cwd, path string) (_ []sourcePath, err error) {
 // directory linked to, not to the directory that holds the link: that is the
 // file the operating system would open under the name.
 func cleanPath(path string) string {
-	if !strings.Contains(path, "..") {
+	dotdot := false
+	for _, elem := range strings.Split(path, string(filepath.Separator)) {
+		dotdot = dotdot || elem == ".."
+	}
+	if !dotdot {
 		return filepath.Clean(path)
 	}
 
 	// The last element is left as it is: a link named as an argument is
-	// not followed.
+	// not followed, with or without a separator behind it.
+	sep := string(filepath.Separator)
+	for {
+		trimmed := strings.TrimSuffix(strings.TrimRight(path, sep), sep+".")
+		if trimmed == "" || trimmed == path {
+			break
+		}
+		path = trimmed
+	}
 	dir, base := filepath.Split(path)
-	if base == ".." || base == "." {
+	if base == ".." {
 		dir, base = path, ""
 	}
 	if resolved, err := filepath.EvalSymlinks(dir); err == nil {
